@@ -737,7 +737,57 @@ def life_check(kind, case, rec):
     rec.label(f"assemblies={min(n_asm, 4)}")
 
 
-FAMILIES = [Family("tangent", ITEMS, check, strategy=strategy, n={"quick": 8, "thorough": 96}, chunk=4, weight=3),
+# ---------------------------------------------------------------------------------------------------------------
+# per-call material arguments: assemble.vector / assemble.matrix(field, kwargs=...) hand them to umat.gradient / umat.hessian
+# ---------------------------------------------------------------------------------------------------------------
+def kw_strategy(kind, tier):
+    return st.fixed_dictionaries({"n": st.lists(st.integers(2, 3), min_size=3, max_size=3), "seed": st.integers(0, 2**16), "T": st.floats(5.0, 60.0).map(lambda v: round(v, 1)),
+                                  "mu": st.floats(0.5, 2.0).map(lambda v: round(v, 2)), "parallel": st.booleans()})
+
+
+def kw_check(kind, case, rec):
+    """a material whose gradient / hessian take an optional per-call keyword (a temperature that softens the shear modulus): the vector
+    and the matrix assembled with kwargs={"temperature": T} are those of the same body whose material has T as its default, and the
+    matrix is the derivative of the vector at that T"""
+    fem = import_felupe()
+
+    class Thermo:
+        def __init__(self, mu, bulk, T0=0.0):
+            self.base, self.T0 = fem.NeoHooke(mu=mu, bulk=bulk), T0
+            self.x = self.base.x
+
+        def _f(self, temperature):
+            return 1.0 / (1.0 + 0.02 * (self.T0 if temperature is None else temperature))
+
+        def gradient(self, x, temperature=None):
+            P, sv = self.base.gradient(x)
+            return [self._f(temperature) * P, sv]
+
+        def hessian(self, x, temperature=None):
+            return [self._f(temperature) * self.base.hessian(x)[0]]
+
+    mesh = fem.Cube(n=tuple(case["n"]))
+    region = fem.RegionHexahedron(mesh)
+    rng = np.random.default_rng(case["seed"])
+    u = 0.08 * rng.uniform(-1, 1, mesh.points.shape)
+    f1, f2 = (fem.FieldContainer([fem.Field(region, dim=3, values=u.copy())]) for _ in range(2))
+    T = case["T"]
+    b_kw = fem.SolidBody(Thermo(case["mu"], 5.0), f1)
+    b_df = fem.SolidBody(Thermo(case["mu"], 5.0, T0=T), f2)
+    par = case["parallel"]
+    r_kw = np.asarray(b_kw.assemble.vector(f1, kwargs={"temperature": T}, parallel=par).toarray()).ravel().copy()
+    K_kw = np.asarray(b_kw.assemble.matrix(f1, kwargs={"temperature": T}, parallel=par).toarray()).copy()
+    r_df = np.asarray(b_df.assemble.vector(f2, parallel=par).toarray()).ravel()
+    K_df = np.asarray(b_df.assemble.matrix(f2, parallel=par).toarray())
+    rec.nontrivial = True
+    rec.close("vector(kwargs=T)=vector-of-the-material-with-default-T", float(np.abs(r_kw - r_df).max()) / float(np.abs(r_df).max()), 1e-13, {"T": T})
+    rec.close("matrix(kwargs=T)=matrix-of-the-material-with-default-T", float(np.abs(K_kw - K_df).max()) / float(np.abs(K_df).max()), 1e-13, {"T": T})
+    r0 = np.asarray(b_kw.assemble.vector(f1).toarray()).ravel()
+    rec.require("without-kwargs-the-default-applies", float(np.abs(r0 - r_kw).max()) > 1e-3 * float(np.abs(r_kw).max()))
+
+
+FAMILIES = [Family("material-kwargs", ["solid/3d"], kw_check, strategy=kw_strategy, n={"quick": 6, "thorough": 100}, chunk=6),
+            Family("tangent", ITEMS, check, strategy=strategy, n={"quick": 8, "thorough": 96}, chunk=4, weight=3),
             Family("lifecycle", LIFE, life_check, strategy=life_strategy, n={"quick": 12, "thorough": 300}, chunk=12)]
 
 LEVEL_TEXT = (
